@@ -10,10 +10,17 @@ from sourmash._lowlevel import lib
 from sourmash.utils import decode_str
 
 
+NROUTE = [0]
+
+
 def show(mh):
     hs = mh.hashes
     keys = list(hs.keys())
     assert keys == sorted(keys), "hashes not ascending"
+    # the Python-side views of one sketch must agree with each other (seeded C01d memoised `.hashes` and forgot one
+    # of the mutators): len() and iteration go to the native sketch directly, `.hashes` builds a dict
+    assert len(mh) == len(keys), "len(mh) != len(mh.hashes)"
+    assert list(mh) == keys if hasattr(type(mh), "__iter__") else True, "iter(mh) != mh.hashes"
     mins = ",".join(str(k) for k in keys)
     if mh.track_abundance:
         ab = ",".join(str(hs[k]) for k in keys)
@@ -53,6 +60,7 @@ def main():
             if op == "#":
                 T = {}
                 G = {}
+                NROUTE[0] = 0
                 out.write("#\n")
                 continue
             a = w[1:]
@@ -141,12 +149,21 @@ def main():
                 T[h].clear()
                 res = show(T[h])
             elif op == "merge":
+                # one modelled operation, two API routes (`merge()` and `+=` both end in kmerminhash_merge); which one
+                # is used alternates with a counter the model does not see
                 h, g = map(int, a)
-                T[h].merge(T[g])
+                NROUTE[0] += 1
+                if NROUTE[0] % 2:
+                    T[h].merge(T[g])
+                else:
+                    t = T[h]
+                    t += T[g]
+                    assert t is T[h], "+= returned another object"
                 res = show(T[h])
             elif op == "plus":
                 r, h, g = map(int, a)
-                T[r] = T[h] + T[g]
+                NROUTE[0] += 1
+                T[r] = (T[h] + T[g]) if NROUTE[0] % 2 else (T[h] | T[g])
                 res = show(T[r])
             elif op == "copy":
                 r, h = map(int, a)
